@@ -265,6 +265,60 @@ def run_lite(sim, nfc, params):
             sim.probe("tamper.detected")
         replay_step(sim, nfc, w, prod, key, desc)
     ndef_cache_step(sim, nfc, lite_s, key, prod, desc)
+    failed_auth_step(sim, nfc, lite_s, key, prod, desc)
+
+
+def failed_auth_step(sim, nfc, lite_s, key, prod, desc):
+    """After an authenticate(P) that FAILED (the tag does not hold P's key) nothing may be accepted under P: a man in the
+    middle who knows P (e.g. the factory key used to probe a tag) and the challenge (written to the tag in clear) answers
+    read_with_mac with other data and a MAC computed from P.  The read must not return that data."""
+    from dsim.w1 import felica_lite as fl
+    pname = sim.pick("failed.pw", ["factory", "random"])
+    P = bytes(16) if pname == "factory" else sim.bytes("failed.P", 16, tag=50)
+    if bytes(a & 0xFE for a in P) == bytes(a & 0xFE for a in key):
+        sim.probe("failed_auth.same_key")
+        return
+    first_ok = sim.chance("failed.after_success", 0.5)
+    with lite_world(nfc, sim, lite_s, key) as w:
+        tag = w.discover(("212F",))
+        if first_ok and call_auth(sim, tag, key, desc, "failed-auth-first") is not True:
+            sim.probe("failed_auth.first_failed")
+            return
+        got = call_auth(sim, tag, b"" if pname == "factory" else P, desc, "failed-auth")
+        if got is not False:
+            raise Violation("authenticate", "%s wrong-before-forgery" % prod, "authenticate(%s password) returned %r, the tag "
+                            "does not hold that key; %r" % (pname, got, desc), {"clause": "tamper"})
+        sil = w.silicon
+        blocks = [sim.randint("failed.block", 0, 13)]
+        forged = sim.bytes("failed.forged", 16 * len(blocks), tag=51)
+        hits = [0]
+
+        def mitm(idx, cmd, rsp):
+            if len(cmd) > 1 and cmd[1] == 0x06 and rsp is not None and len(rsp) == 13 + 16 * (len(blocks) + 1) and rsp[10] == 0:
+                real = bytes(sil.blk[fl.CK])
+                sil.blk[fl.CK] = bytearray(P)
+                try:
+                    m = sil.mac(forged)          # MAC under P's session key and the challenge the reader wrote
+                finally:
+                    sil.blk[fl.CK] = bytearray(real)
+                hits[0] += 1
+                return bytes(rsp[:13]) + forged + m + bytes(8)
+            return rsp
+        w.device.tamper = mitm
+        sim.fault("forged_under_failed_password")
+        try:
+            r = tag.read_with_mac(*blocks)
+        except Exception:
+            r = None
+        w.device.tamper = None
+        sim.cls(prod, "failed-auth-forgery", pname, first_ok, r is None)
+        if r is not None and bytes(r) == forged:
+            raise Violation("forgery-accepted", "%s after failed authenticate" % prod,
+                            "authenticate(%s password) returned False; read_with_mac(%r) on the same tag object then returned "
+                            "data forged by a man in the middle with a MAC computed from that password (the tag holds another "
+                            "key%s); %r" % (pname, blocks, ", an earlier authenticate() with the right key had succeeded"
+                                            if first_ok else "", desc), {"clause": "tamper"})
+        sim.probe("failed_auth.forgery_refused" if hits[0] or r is None else "failed_auth.not_reached")
 
 
 def ndef_cache_step(sim, nfc, lite_s, key, prod, desc):
